@@ -283,6 +283,33 @@ def replay_units(case) -> dict:
     t, m = ld.normalize_input(pipe.from_array(arr, original_scale=1.0), pipe.soft_otsu(1.0, 1.0))
     if t.shape != (12, 16, 20) or np.asarray(m).shape != t.shape:
         fails.append(dict(desc, clause="LoaderNormalizeInput"))
+    # normalize_template / normalize_mask: providers are evaluated AT THE LOADER'S SCALE, arrays are taken as they are, a converter
+    # given as mask is bound to the loader's scale (the same image it gives when applied with that scale by hand)
+    prov = pipe.from_array(arr, original_scale=1.0)
+    want_t = np.asarray(prov(0.5))
+    got_t = np.asarray(engine.api(ld.normalize_template, prov))
+    if got_t.shape != want_t.shape or not np.allclose(got_t, want_t, atol=1e-5):
+        fails.append(dict(desc, clause="LoaderNormalizeTemplate", what="provider", observed=list(got_t.shape), expected=list(want_t.shape)))
+    if engine.api(ld.normalize_template, arr) is not arr and not np.array_equal(engine.api(ld.normalize_template, arr), arr):
+        fails.append(dict(desc, clause="LoaderNormalizeTemplate", what="array"))
+    many = engine.api(ld.normalize_template, [prov, arr], allow_multiple=True)
+    if len(many) != 2 or np.asarray(many[0]).shape != want_t.shape or not np.array_equal(np.asarray(many[1]), arr):
+        fails.append(dict(desc, clause="LoaderNormalizeTemplate", what="list"))
+    stack = np.stack([arr, arr * 2])
+    spl = engine.api(ld.normalize_template, stack, allow_multiple=True)
+    if len(spl) != 2 or not (np.array_equal(spl[0], arr) and np.array_equal(spl[1], arr * 2)):
+        fails.append(dict(desc, clause="LoaderNormalizeTemplate", what="stack"))
+    conv = pipe.soft_otsu(1.0, 1.0)
+    bound = engine.api(ld.normalize_mask, conv)
+    mk = np.asarray(engine.api(bound, want_t))
+    by_hand = np.asarray(conv(want_t, 0.5))
+    if mk.shape != by_hand.shape or not np.allclose(mk, by_hand, atol=1e-5):
+        fails.append(dict(desc, clause="LoaderNormalizeMask", what="converter bound to the loader's scale"))
+    pm = np.asarray(engine.api(ld.normalize_mask, pipe.from_array((arr > arr.mean()).astype(np.float32), original_scale=1.0)))
+    if pm.shape != want_t.shape or pm.dtype != np.float32:
+        fails.append(dict(desc, clause="LoaderNormalizeMask", what="provider", observed=list(pm.shape)))
+    if engine.api(ld.normalize_mask, None) is not None:
+        fails.append(dict(desc, clause="LoaderNormalizeMask", what="none"))
     return dict(failures=fails, classes={"units": 1})
 
 
